@@ -955,6 +955,13 @@ def o_c09(tr):
                 if m["srtt"] is not None and m["min_rtt"] is not None and m["latest"] is not None:
                     if m["min_rtt"] > m["latest"] + 1 or m["min_rtt"] > m["srtt"] + 1:
                         bad.append(("e2e:c09:min-rtt", f"endpoint {ep}: min_rtt {m['min_rtt']} above latest {m['latest']} / smoothed {m['srtt']}"))
+    # the bytes-in-flight counters are checked counters: crediting a controller with more than it has in flight
+    # panics the endpoint ("counter overflow", s2n-quic-core/src/counter.rs) - the figure tried to go negative
+    for msg in ([tr.end[2]] if tr.end and tr.end[1] == "panic" else []) + list(tr.panics):
+        if "counter overflow" in msg:
+            bad.append(("e2e:c09:bytes-in-flight:counter-overflow", f"an endpoint panicked at {tr.end[0] if tr.end else '?'}us: {msg[:200]} (a checked counter of the recovery / congestion "
+                                                                     "bookkeeping left its range: bytes in flight would have gone negative)"))
+            break
     return bad
 
 
